@@ -730,7 +730,7 @@ Proof.
   set (w1 := w <| w_reg := w_reg w ++ [mkCI key isrel zs] |>) in *.
   destruct K as [[S G] P L].
   assert (G1 : rgraph_ok w1).
-  { destruct G as [A1 A2 A3 A4 A5 A6 A7 A8 A9 A10 A11 A12]. split; try done.
+  { destruct G as [A1 A2 A3 A4 A5 A6 A7 A8 A9 A10 A11 A12 A13 A14]. split; try done.
     - intros nid nd Hnd i. specialize (A2 nid nd Hnd i). unfold reg_is_rel in *. simpl.
       destruct (decide (i < length (w_reg w))).
       + by rewrite lookup_app_l.
@@ -793,4 +793,6 @@ Proof.
   - eexists _, _. split; [reflexivity|]. simpl. split; [reflexivity|done].
   - split; [done|]. destruct (relcapinc <? 1) eqn:Hr; [done|]. apply Nat.ltb_ge in Hr. lia.
   - lia.
+  - intros nid nd tid H _. destruct nid; simpl in H; [|done]. by injection H as <-.
+  - intros nid nd H. destruct nid; simpl in H; [|done]. injection H as <-. simpl. apply NoDup_singleton.
 Qed.
